@@ -64,6 +64,7 @@ let cmd_cpsstat order goal prog rad =
 let dispatch (fields : string list) : string option =
   match fields with
   | ["cps"; goal; prog; rad] -> Some (cmd_cps order_oldest_first goal prog rad)
+  | ["cpspy"; goal; prog; rad] -> Some (cmd_cps order_oldest_first goal prog rad)
   | ["cps1"; goal; prog; rad] -> Some (cmd_cps1 order_oldest_first goal prog rad)
   | ["cpso"; ord; goal; prog; rad] -> Some (cmd_cps (order_of ord) goal prog rad)
   | ["cps1o"; ord; goal; prog; rad] -> Some (cmd_cps1 (order_of ord) goal prog rad)
